@@ -212,7 +212,7 @@ def gen_aligned(rng, exact, scale=None):
     lo, hi = bounds(st)
     cq = cellq(st)
     cls = rng.choice(["same", "whole", "whole", "half", "quarter", "below-tol", "above-tol", "cell-differs",
-                      "cell-slightly", "pmax-only"])
+                      "cell-slightly"])
     if not exact and float(min(cq)) <= 1e-11 and rng.random() < 0.5:
         cls = rng.choice(["half", "quarter", "cell-differs"])
     n2 = [rng.randint(1, 6) for _ in range(nd)]
@@ -236,10 +236,6 @@ def gen_aligned(rng, exact, scale=None):
         if a == a_sp and cls == "cell-slightly":
             c2 = c * (1 + F(1, 2 ** 18) if exact else 1 + 2.0 ** -18)      # 3.8e-6 < rtol 1e-5
         h = l + n2[a] * c2
-        if a == a_sp and cls == "pmax-only":
-            h = l + n2[a] * c2 + c / 2 * n2[a] / n2[a]
-            # keep the cell: extend by half a cell and compensate through n -> cell changes; instead shift pmax only
-            h = l + n2[a] * c2
         lo2.append(l)
         hi2.append(h)
     tol = ALIGN_TOL
@@ -503,13 +499,14 @@ def invariant_violations(mesh_obs, slack_rel=F(1, 100)):
             e = smax[a] - smin[a]
             if e < cq[a] - sl or lattice_dist(e, cq[a]) > sl:
                 out.append("held-subregion-not-whole-cells")
-            if lattice_dist(smin[a] - lo[a], cq[a]) > sl:
+            if lattice_dist(smin[a] - lo[a], cq[a]) > cq[a] / 10:
                 out.append("held-subregion-off-lattice")
     return sorted(set(out))
 
 
 def abs_tol_tags(cells):
-    return [TAG_ABS] if any(F(c) <= 2 * ALIGN_TOL for c in cells) else []
+    """the absolute alignment tolerance (1e-12) is at least a tenth of the smallest cell"""
+    return [TAG_ABS] if any(F(c) <= 10 * ALIGN_TOL for c in cells) else []
 
 
 def maxabs(st):
@@ -538,11 +535,10 @@ def classify_candidate(st, p1, p2):
             bad = True
         if e < c * F(99, 100) or lattice_dist(e, c) > min(cq) / 100 + c / 100:
             bad = True
-        if lattice_dist(smin[a] - lo[a], c) > c / 100 and c > 2 * ALIGN_TOL * F(101, 100):
-            # (with c <= 2e-12 the code cannot see the offset: that is the known finding, flagged
-            #  through the held-subregion clauses instead)
-            if lattice_dist(smin[a] - lo[a], c) > ALIGN_TOL * 2:
-                bad = True
+        if lattice_dist(smin[a] - lo[a], c) > c / 10:
+            # (an absolute tolerance cannot see this when the cell is within a factor 10 of it: that
+            #  is the known finding C14-abs-tolerance; such cases carry its tag)
+            bad = True
         if not (lo[a] <= smin[a] and smax[a] <= hi[a]):
             good = False
         if e < c or lattice_dist(e, c) > min(cq) / 10000:
@@ -578,11 +574,12 @@ def run_case(c):
         c1 = cellq(st)
         c2 = [(h - l) / k for l, h, k in zip(lo2, hi2, c["n2"])]
         cells_equal = all(abs(x - y) <= abs(y) / 10 ** 9 for x, y in zip(c1, c2))
-        cells_differ = any(abs(x - y) > abs(y) / 1000 for x, y in zip(c1, c2))
+        cells_differ = any(abs(x - y) > abs(y) / 10 for x, y in zip(c1, c2))
         dmin = [lattice_dist(abs(a - b), cc) for a, b, cc in zip(lo, lo2, c1)]
         dmax = [lattice_dist(abs(a - b), cc) for a, b, cc in zip(hi, hi2, c1)]
         noise = max(abs(x) for x in lo + hi + lo2 + hi2) * F(1, 2 ** 49)
-        if res and (cells_differ or any(d > cc / 100 and d > 2 * tol for d, cc in zip(dmin + dmax, c1 + c1))):
+        if res and (cells_differ or any(d > cc / 10 and (tol == ALIGN_TOL or d > 2 * tol)
+                                        for d, cc in zip(dmin + dmax, c1 + c1))):
             rec["oracle"].append("misaligned-reported-aligned")
         if (not res) and cells_equal and noise <= tol / 4 and all(d <= tol / 4 for d in dmin + dmax) \
                 and all(abs(x - y) <= tol / 4 for x, y in zip(c1, c2)):
